@@ -54,3 +54,205 @@ func H_O1_CalcOutGivenIn_1to1() {
 	// out*d <= Bout*a + d   (exact products on mantissas)
 	vrf.Assert(d.MulInt(out.Amount).LTE(a.MulInt(bout).Add(d)), "O1: out <= exact + 1 base unit")
 }
+
+func feeIn2pct() sdkmath.LegacyDec {
+	fee := vrf.Dec("fee")
+	vrf.Assume(!fee.IsNegative())
+	vrf.Assume(fee.LTE(sdkmath.LegacyNewDecWithPrec(2, 2)))
+	return fee
+}
+
+func o1Weighted(win, wout int64) {
+	bin, bout, in := vrf.Int("Bin"), vrf.Int("Bout"), vrf.Int("in")
+	fee := feeIn2pct()
+	vrf.Assume(bin.IsPositive())
+	vrf.Assume(bout.IsPositive())
+	vrf.Assume(in.IsPositive())
+	// the 18-digit rounding of y = Bin/(Bin+a) is amplified k times by y^k: one base unit covers Bout <= 1e17
+	vrf.Assume(bout.LTE(sdkmath.NewIntWithDecimal(1, 17)))
+	pool := mkPool(bin, bout, win, wout, fee)
+	var ctx sdk.Context
+	out, _, err := pool.CalcOutAmtGivenIn(ctx, nil, &pool, sdk.Coins{sdk.Coin{Denom: "uatom", Amount: in}}, "uusdc", fee, noAcc{})
+	if err != nil {
+		return
+	}
+	vrf.Cover("swap-ok")
+	vrf.Observe("out", out.Amount)
+	// exact: out = Bout*(1 - (Bin/(Bin+a))^k), k = win/wout integer. Weaker, solver-friendly bound that
+	// every k >= 1 must satisfy: out <= Bout*k*a/(Bin+a) + 1  (Bernoulli: 1-y^k <= k(1-y))
+	a := sdkmath.LegacyNewDecFromInt(in).Mul(sdkmath.LegacyOneDec().Sub(fee))
+	d := sdkmath.LegacyNewDecFromInt(bin).Add(a)
+	k := win / wout
+	vrf.Assert(d.MulInt(out.Amount).LTE(a.MulInt(bout).MulInt64(k).Add(d)), "O1w: out <= k*Bout*a/(Bin+a) + 1 (Bernoulli bound of the weighted formula)")
+	vrf.Assert(out.Amount.LTE(bout), "O1w: out never exceeds the reserve")
+}
+
+// O1 for integer weight ratios 2:1, 3:1, 4:1 (Pow takes the integer Power branch).
+//vrf:cover swap-ok
+//vrf:bound weights 2:1; Bout <= 1e17
+func H_O1_CalcOutGivenIn_2to1() { o1Weighted(2, 1) }
+
+//vrf:cover swap-ok
+//vrf:tier thorough
+//vrf:bound weights 3:1; Bout <= 1e17
+func H_O1_CalcOutGivenIn_3to1() { o1Weighted(3, 1) }
+
+//vrf:cover swap-ok
+//vrf:tier thorough
+//vrf:bound weights 4:1; Bout <= 1e17
+func H_O1_CalcOutGivenIn_4to1() { o1Weighted(4, 1) }
+
+// O2 (exact-out, equal weights): the charged input is at least the exact formula minus one unit:
+// (in+1)*(1-fee)*(Bout-out) >= Bin*out.
+//vrf:cover swap-ok
+//vrf:bound weights 1:1; Bin <= 1e18; Bout, out unbounded; fee in [0, 2%]
+func H_O2_CalcInGivenOut_1to1() {
+	bin, bout, out := vrf.Int("Bin"), vrf.Int("Bout"), vrf.Int("out")
+	fee := feeIn2pct()
+	vrf.Assume(bin.IsPositive())
+	vrf.Assume(bout.IsPositive())
+	vrf.Assume(out.IsPositive())
+	vrf.Assume(out.LT(bout))
+	vrf.Assume(bin.LTE(e18()))
+	pool := mkPool(bin, bout, 1, 1, fee)
+	var ctx sdk.Context
+	in, _, err := pool.CalcInAmtGivenOut(ctx, nil, &pool, sdk.Coins{sdk.Coin{Denom: "uusdc", Amount: out}}, "uatom", fee, noAcc{})
+	if err != nil {
+		return
+	}
+	vrf.Cover("swap-ok")
+	vrf.Observe("in", in.Amount)
+	f1 := sdkmath.LegacyOneDec().Sub(fee) // mantissa of (1-fee)
+	lhs := f1.MulInt(in.Amount.AddRaw(1)).MulInt(bout.Sub(out))
+	rhs := sdkmath.LegacyNewDecFromInt(bin).MulInt(out)
+	vrf.Assert(lhs.GTE(rhs), "O2: charged input >= exact input - 1 base unit")
+}
+
+// O3 (split trade, zero fee, equal weights): two consecutive exact-in swaps against the updated
+// reserves pay at most what the exact formula gives for the whole amount, plus the allowance.
+//vrf:cover swap-ok
+//vrf:bound weights 1:1; zero fee; Bout <= 1e18; two pieces
+//vrf:assert-ms 120000
+func H_O3_Split_1to1() {
+	bin, bout, in1, in2 := vrf.Int("Bin"), vrf.Int("Bout"), vrf.Int("in1"), vrf.Int("in2")
+	vrf.Assume(bin.IsPositive())
+	vrf.Assume(bout.IsPositive())
+	vrf.Assume(in1.IsPositive())
+	vrf.Assume(in2.IsPositive())
+	vrf.Assume(bout.LTE(e18()))
+	z := sdkmath.LegacyZeroDec()
+	pool := mkPool(bin, bout, 1, 1, z)
+	var ctx sdk.Context
+	out1, _, err := pool.CalcOutAmtGivenIn(ctx, nil, &pool, sdk.Coins{sdk.Coin{Denom: "uatom", Amount: in1}}, "uusdc", z, noAcc{})
+	if err != nil {
+		return
+	}
+	pool2 := mkPool(bin.Add(in1), bout.Sub(out1.Amount), 1, 1, z)
+	out2, _, err := pool2.CalcOutAmtGivenIn(ctx, nil, &pool2, sdk.Coins{sdk.Coin{Denom: "uatom", Amount: in2}}, "uusdc", z, noAcc{})
+	if err != nil {
+		return
+	}
+	vrf.Cover("swap-ok")
+	total := out1.Amount.Add(out2.Amount)
+	in := in1.Add(in2)
+	// (total - 2) * (Bin + in) <= Bout * in      (one unit of allowance per piece)
+	vrf.Assert(total.SubRaw(2).Mul(bin.Add(in)).LTE(bout.Mul(in)), "O3: split trade <= exact(in1+in2) + 1 unit per piece")
+}
+
+// O4 (round trip A->B->A, zero fee, equal weights) returns at most the input plus one unit.
+//vrf:cover swap-ok
+//vrf:bound weights 1:1; zero fee; Bin+in <= 1e18, Bout <= 1e18
+//vrf:assert-ms 120000
+func H_O4_RoundTrip_1to1() {
+	bin, bout, in := vrf.Int("Bin"), vrf.Int("Bout"), vrf.Int("in")
+	vrf.Assume(bin.IsPositive())
+	vrf.Assume(bout.IsPositive())
+	vrf.Assume(in.IsPositive())
+	vrf.Assume(bout.LTE(e18()))
+	vrf.Assume(bin.Add(in).LTE(e18()))
+	z := sdkmath.LegacyZeroDec()
+	pool := mkPool(bin, bout, 1, 1, z)
+	var ctx sdk.Context
+	out1, _, err := pool.CalcOutAmtGivenIn(ctx, nil, &pool, sdk.Coins{sdk.Coin{Denom: "uatom", Amount: in}}, "uusdc", z, noAcc{})
+	if err != nil {
+		return
+	}
+	pool2 := mkPool(bin.Add(in), bout.Sub(out1.Amount), 1, 1, z)
+	back, _, err := pool2.CalcOutAmtGivenIn(ctx, nil, &pool2, sdk.Coins{sdk.Coin{Denom: "uusdc", Amount: out1.Amount}}, "uatom", z, noAcc{})
+	if err != nil {
+		return
+	}
+	vrf.Cover("swap-ok")
+	vrf.Assert(back.Amount.LTE(in.AddRaw(1)), "O4: round trip returns <= in + 1 base unit")
+}
+
+// ---- O5: oracle pools ----
+
+type oracle struct {
+	ammtypes.OracleKeeper
+	pa, pu sdkmath.LegacyDec
+}
+
+func (o oracle) GetAssetPriceFromDenom(ctx sdk.Context, denom string) sdkmath.LegacyDec {
+	if denom == "uatom" {
+		return o.pa
+	}
+	return o.pu
+}
+
+// contract of Pool.CalcGivenInSlippage: any non-negative slippage amount
+func sumSlippageIn(p *ammtypes.Pool, ctx sdk.Context, o ammtypes.OracleKeeper, snap *ammtypes.Pool, tokensIn sdk.Coins, outDenom string, acc ammtypes.AccountedPoolKeeper) (sdkmath.LegacyDec, error) {
+	s := vrf.Dec("slippageAmount")
+	vrf.Assume(!s.IsNegative())
+	return s, nil
+}
+
+// contract of GetWeightBreakingFee: its result is clamped to [0, 0.99] by the code (Pow with exponent 2.5 is
+// out of reach; any value in the clamped range is admitted, which is sound for the value inequality)
+func sumWBF(a, b, c, d, e, f, g sdkmath.LegacyDec, params ammtypes.Params) sdkmath.LegacyDec {
+	w := vrf.Dec("wbf")
+	vrf.Assume(!w.IsNegative())
+	vrf.Assume(w.LTE(sdkmath.LegacyNewDecWithPrec(99, 2)))
+	return w
+}
+
+// O5 exact-in: what the oracle pool pays out is never worth more, at oracle prices, than what is paid in
+// (up to one base unit of the output token): out*pOut <= in*pIn + pOut.
+//vrf:summary (*github.com/elys-network/elys/x/amm/types.Pool).CalcGivenInSlippage => sumSlippageIn
+//vrf:summary github.com/elys-network/elys/x/amm/types.GetWeightBreakingFee => sumWBF
+//vrf:cover swap-ok
+//vrf:bound oracle pool, 2 assets; prices, fee in [0,2%], external-liquidity ratio in (0,1] symbolic; slippage amount and weight-breaking fee havocked within their clamped ranges
+//vrf:assert-ms 120000
+//vrf:full-feas-ms 2000
+//vrf:max-paths 3000
+func H_O5_OracleSwap_ExactIn() {
+	env := vrf.NewWorld()
+	ctx := vrf.NewCtx(env)
+	ba, bu, in := vrf.Int("Batom"), vrf.Int("Busdc"), vrf.Int("in")
+	pa, pu := vrf.Dec("pAtom"), vrf.Dec("pUsdc")
+	fee, ext := feeIn2pct(), vrf.Dec("extRatio")
+	vrf.Assume(ba.IsPositive())
+	vrf.Assume(bu.IsPositive())
+	vrf.Assume(in.IsPositive())
+	vrf.Assume(pa.IsPositive())
+	vrf.Assume(pu.IsPositive())
+	vrf.Assume(ext.IsPositive())
+	vrf.Assume(ext.LTE(sdkmath.LegacyOneDec()))
+	pool := ammtypes.Pool{
+		PoolId:     1,
+		PoolParams: ammtypes.PoolParams{UseOracle: true, SwapFee: fee},
+		PoolAssets: []ammtypes.PoolAsset{
+			{Token: sdk.Coin{Denom: "uatom", Amount: ba}, Weight: sdkmath.NewInt(1), ExternalLiquidityRatio: ext},
+			{Token: sdk.Coin{Denom: "uusdc", Amount: bu}, Weight: sdkmath.NewInt(1), ExternalLiquidityRatio: ext},
+		},
+		TotalWeight: sdkmath.NewInt(2),
+	}
+	snap := pool
+	out, _, _, _, _, err := pool.SwapOutAmtGivenIn(ctx, oracle{pa: pa, pu: pu}, &snap, sdk.Coins{{Denom: "uatom", Amount: in}}, "uusdc", fee, noAcc{}, sdkmath.LegacyOneDec(), ammtypes.DefaultParams())
+	if err != nil {
+		return
+	}
+	vrf.Cover("swap-ok")
+	// out*pu <= in*pa + pu   (price mantissas)
+	vrf.Assert(pu.MulInt(out.Amount).LTE(pa.MulInt(in).Add(pu)), "O5: value out <= value in + one output unit")
+}
